@@ -406,7 +406,7 @@ def check(cx):
     r7 = cx.rule('R13.7', 'relay serialiser colon condition', floor=2, kind='shape')
     fts = cx.fn('to_string_with_source')
     wts = cx.walk(fts, args=[P('self'), P('source')], key='c13')
-    apps = [e for e in wts.events if e.kind == 'local_mut']
+    apps = local_muts(wts)
     colon = [e for e in apps if e.data['args'][:1] == [('lit', ' :')]]
     r7.instance('" :" before the last parameter when it is empty or contains space/tab/colon')
     okc = False
